@@ -205,3 +205,17 @@ Proof.
 Qed.
 
 End EraseVals.
+
+(* WF only looks at four components *)
+Lemma WF_ext m s s' :
+  (forall k, vals s' k = vals s k) -> (forall c, cont s' c = cont s c) ->
+  (forall c, eres s' c = eres s c) -> (forall r, rcont s' r = rcont s r) ->
+  WF m s -> WF m s'.
+Proof.
+  intros EV EC EE ER [H1 H2 H3 H4 H5]. constructor.
+  - apply (sym_ext m s); assumption.
+  - intros a f. rewrite EV. apply H2.
+  - intros c p f. rewrite EC, EV. apply H3.
+  - destruct H4 as [A B]. split; [intros r; rewrite ER; apply A | intros c r; rewrite ER, EE; apply B].
+  - intros c r. rewrite ER, EC. apply H5.
+Qed.
